@@ -433,6 +433,11 @@ func runHistory(w *world, h thist, quiet time.Duration) []map[string]interface{}
 	for i, m := range h.H {
 		note := ""
 		panicked := false
+		q := quiet
+		if m.Type == "cast" && r.vp.BufferedFor(common.ToHex(w.props[m.Prop].bh.Hash.Bytes())) > 0 {
+			// the re-key will replay buffered messages in goroutines whose completion is not visible
+			q = 4 * quiet
+		}
 		func() {
 			defer func() {
 				if p := recover(); p != nil {
@@ -471,7 +476,7 @@ func runHistory(w *world, h thist, quiet time.Duration) []map[string]interface{}
 				vutil.Fatalf("unknown message type %q", m.Type)
 			}
 		}()
-		evs = append(evs, map[string]interface{}{"event": "Call", "m": m, "note": note, "panicked": panicked, "state": r.settle(quiet)})
+		evs = append(evs, map[string]interface{}{"event": "Call", "m": m, "note": note, "panicked": panicked, "state": r.settle(q)})
 	}
 	evs = append(evs, map[string]interface{}{"event": "End", "state": r.settle(2 * quiet)})
 	return evs
